@@ -41,6 +41,7 @@ SD(e) == [s |-> e.args.s, e |-> e.args.e]
 NewTaint(e) ==
   (IF Overtaken' THEN {"overtaken"} ELSE {})
   \cup (IF e.a = "RunSD" /\ gs[e.args.srv].exists /\ SDRefused(gs[e.args.srv], e.args.e) THEN {"refused"} ELSE {})
+  \cup (IF e.a = "Restore" /\ gs[e.args.srv].exists /\ ~RestoreNeutral(gs[e.args.srv]) THEN {"restored"} ELSE {})
   \cup (IF e.a = "RunSD" /\ LateFor(e.args.srv, SD(e)) /\ ~SDRefused(gs[e.args.srv], e.args.e) THEN {"late"} ELSE {})
 
 PropOf(e) ==
@@ -49,6 +50,7 @@ PropOf(e) ==
     [] e.a = "CreateGroup" -> \A v \in Servers : gs'[v].exists /\ (~gs[v].exists => Members(gs'[v]) = {e.args.c})
     [] e.a = "Leave" -> P_Leave(e.args.c)
     [] e.a = "RunSD" -> P_RunSD(e.args.srv, SD(e))
+    [] e.a = "Restore" -> P_Restore(e.args.srv)
     [] e.a = "Skip" -> SameGroups
     [] OTHER -> P_Other
 
@@ -60,15 +62,18 @@ ImplOf(e) ==
     [] e.a = "Leave" -> DoLeave(e.args.c)
     [] e.a = "ChangeCoordinator" -> DoChangeCoordinator(e.args.coord)
     [] e.a = "RunSD" -> DoRunSD(e.args.srv, SD(e))
+    [] e.a = "Restore" -> DoRestore(e.args.srv, e.args.order)
     [] e.a = "GetAssignments" -> DoGetAssignments(e.args.srv, e.args.c, e.args.e)
     [] OTHER -> UNCHANGED <<gs, pend, parts, idx>>
 
-Tag == IF "late" \in taint' /\ "overtaken" \notin taint' /\ "refused" \notin taint' THEN "sd-late"
+SDTaints == {"overtaken", "refused", "late"}
+Tag == IF taint' \cap SDTaints = {} /\ "restored" \in taint' THEN "restore-history"
+       ELSE IF "late" \in taint' /\ "overtaken" \notin taint' /\ "refused" \notin taint' THEN "sd-late"
        ELSE IF taint' # {} THEN "sd-overtaken" ELSE "-"
 Fail(kind, e, name) == PrintT(<<"FAIL", kind, e.t, l, e.a, name, Tag>>)
 Chk(ok, kind, e, name) == IF ok THEN TRUE ELSE Fail(kind, e, name)
-\* requirement that the known finding breaks: "P" while the behaviour is clean
-ChkK(ok, e, name) == IF ok THEN TRUE ELSE Fail(IF taint' = {} THEN "P" ELSE "K", e, name)
+\* requirement that a known finding breaks: "P" while the behaviour is clean of the culprits in `rel`
+ChkK(ok, e, name, rel) == IF ok THEN TRUE ELSE Fail(IF taint' \cap rel = {} THEN "P" ELSE "K", e, name)
 
 TraceNext ==
   /\ Trace[l].a # "End"
@@ -80,11 +85,13 @@ TraceNext ==
         ELSE /\ Chk(PropOf(e), "P", e, "step")
              /\ Chk(ImplOf(e), "I", e, "step")
      /\ Chk(C12_NoForeign', "P", e, "C12_NoForeign")
-     /\ ChkK(C12_ExactlyOne', e, "C12_ExactlyOne")
-     /\ ChkK(C12_AssignedExist', e, "C12_AssignedExist")
-     /\ ChkK(C12_Balanced', e, "C12_Balanced")
-     /\ ChkK(C12_SameEpochSame', e, "C12_SameEpochSame")
-     /\ ChkK(C12_Converged', e, "C12_Converged")
+     \* a rebuilt group must be a valid assignment whatever its history ...
+     /\ ChkK(C12_ExactlyOne', e, "C12_ExactlyOne", SDTaints)
+     /\ ChkK(C12_AssignedExist', e, "C12_AssignedExist", SDTaints)
+     /\ ChkK(C12_Balanced', e, "C12_Balanced", SDTaints)
+     \* ... but may differ from the live one when the history matters
+     /\ ChkK(C12_SameEpochSame', e, "C12_SameEpochSame", SDTaints \cup {"restored"})
+     /\ ChkK(C12_Converged', e, "C12_Converged", SDTaints \cup {"restored"})
      /\ Chk(ImplInv', "I", e, "ImplInv")
 
 TraceSpec == TraceInit /\ [][TraceNext]_tvars
